@@ -38,6 +38,9 @@ SIGS = [
     ([("x", "a b"), ("b", "b")], "x"),          # return axis named like a parameter, never bound
     ([("x", "#a #b"), ("y", "a b")], None),
     ([("x", "a 3")], "a"),
+    # parameters with (scalar) defaults that receive arrays: nothing may compare them with the default
+    ([("x", "a"), ("eps", "", 1.0), ("y", "a", None)], "a"),
+    ([("x", "a b"), ("eps", "", 1.0), ("tol", "", 0.5)], "b a"),
 ]
 TREE = [("arr", "a b"), ("arr", "*v a"), ("union", [("arr", "a 3"), ("arr", "a b")])]
 
@@ -82,12 +85,17 @@ def get_fn(sig, ret, ARR, tc, body):
     import jaxtyping as jt
     g = {"_body": body, "jt": jt}
     args = []
-    for i, (pn, d) in enumerate(sig):
+    for i, p in enumerate(sig):
+        pn, d = p[0], p[1]
         g[f"A{i}"] = jt.Float[ARR, d]
-        args.append(f"{pn}: A{i}")
+        if len(p) > 2:
+            g[f"D{i}"] = p[2]
+            args.append(f"{pn}: A{i} = D{i}")
+        else:
+            args.append(f"{pn}: A{i}")
     if ret is not None:
         g["R"] = jt.Float[ARR, ret]
-    src = f"def f({', '.join(args)}){' -> R' if ret is not None else ''}:\n    return _body({', '.join(p for p, _ in sig)})\n"
+    src = f"def f({', '.join(args)}){' -> R' if ret is not None else ''}:\n    return _body({', '.join(p[0] for p in sig)})\n"
     exec(src, g)
     fn = g["f"]
     fn.__module__ = "verif_generated"
@@ -106,7 +114,7 @@ def _mon_body(*args):
 def expected_call(V, sig, ret, shapes, rshape):
     """reference verdict of a decorated call (sequential semantics; parameter values are never axes)"""
     B = D.Bindings()
-    seq = [(D.parse_ref(d), sh) for (_, d), sh in zip(sig, shapes)]
+    seq = [(D.parse_ref(p[1]), sh) for p, sh in zip(sig, shapes)]
     if ret is not None:
         seq.append((D.parse_ref(ret), rshape))
     for dm, sh in seq:
@@ -136,7 +144,7 @@ def scenario(inst, V):
             rshape = [V.int(f"sr_{j}", 0) for j in range(r)]
         fn = get_fn(sig, ret, MonArr, inst["tc"], _mon_body)
         _RET[0] = MonArr(rshape) if rshape is not None else None
-        kindr, res = fnlib.call(fn, [p for p, _ in sig], [MonArr(s) for s in shapes], "pos")
+        kindr, res = fnlib.call(fn, [p[0] for p in sig], [MonArr(s) for s in shapes], "pos")
         V.reach(kindr)
         V.check("no-value-access", not MonArr.log, log=list(MonArr.log), verdict=kindr)
         first = expected_call(V, sig, ret, shapes, rshape)
